@@ -302,14 +302,20 @@ func (s *Sixel) Resize(w int, h int) {
 		}
 		// Re-encode the image
 		buf := bytes.NewBuffer(nil)
-		var paletted image.Image
+		var paletted *image.Paletted
 		if p, ok := img.(*image.Paletted); ok && len(p.Palette) < 255 {
 			// fast-path for paletted images: pass through to sixel
 			paletted = p
 		} else {
 			paletted = octreequant.Paletted(img, 254)
 		}
-		err := sixel.NewEncoder(buf).Encode(paletted)
+		enc := sixel.NewEncoder(buf)
+		// One color register per palette entry (and the encoder's
+		// transparent one): by default the encoder also selects the
+		// registers up to 254 which it never defines, and a sixel
+		// decoder may refuse those
+		enc.Colors = len(paletted.Palette) + 1
+		err := enc.Encode(paletted)
 		if err != nil {
 			log.Error("couldn't encode sixel: %v", err)
 		}
